@@ -18,7 +18,7 @@ def model(kind, maxlen, vals=(0, 1, 3), weights=(0, 1, 2), times=(0, 1, 2, 4)):
 def check_kind(ctx: Ctx, kind, maxlen, variants=("plain", "event", "listened"), vals=(0, 1, 3), label=None, max_paths=None,
                affine=dst.AFFINE, repeat=(1, 200), all_paths=False):
     files, mod, cfg = model(kind, maxlen, vals=vals)
-    nodes, edges, inits, r = tlc.dump_graph(mod, cfg, extra_files=files, workers=8, timeout=2400)
+    nodes, edges, inits, r = tlc.dump_graph(mod, cfg, extra_files=files, workers=8, timeout=3600)
     ctx.add_tlc(label or f"Stats[{kind}] histories <= {maxlen}", r)
     if not r.ok:
         raise tlc.MachineryError(f"Stats.tla[{kind}] violates {r.violated}")
@@ -37,6 +37,7 @@ def check_kind(ctx: Ctx, kind, maxlen, variants=("plain", "event", "listened"), 
                 stack.append((edges[k][2], p + [k]))
     else:
         paths, ncov = graphs.edge_cover(nodes, edges, inits)
+    paths.sort(key=lambda p: [edges[k][1] for k in p])      # deterministic whatever the order of the dump
     if max_paths and len(paths) > max_paths:
         step = len(paths) / max_paths
         paths = [paths[int(i * step)] for i in range(max_paths)]
